@@ -428,3 +428,162 @@ func FmtKeys(keys []Key) string {
 	}
 	return out + "]"
 }
+
+// ---------------------------------------------------------------------------------
+// Pairs: a second CIDR / host address related to a first one, for checks of the code that
+// decides whether an installed filter "is" the classifier of a wanted CIDR.
+
+// Relations drawn by GenRelated.
+const (
+	RelSameCIDR    = 0 // same network and prefix length (host bits / form may differ)
+	RelSameBase    = 1 // same address bytes, another prefix length
+	RelNested      = 2 // a longer prefix inside the first CIDR
+	RelSibling     = 3 // same prefix length, exactly one network bit flipped
+	RelIndependent = 4
+)
+
+// RelName names a relation for labels.
+func RelName(rel int) string {
+	return [...]string{"same-cidr", "same-base-other-prefix", "nested-inside", "one-network-bit-flipped", "independent"}[rel]
+}
+
+// GenRelated draws a CIDR of b's family related to b by rel (drawn too). Probes are not
+// copied: the result has none.
+func GenRelated(t *rapid.T, b Scenario) (Scenario, int) {
+	n := len(b.Addr)
+	bits := n * 8
+	rel := rapid.SampledFrom([]int{RelSameCIDR, RelSameBase, RelSameBase, RelNested, RelNested, RelSibling, RelIndependent}).Draw(t, "rel")
+	a := Scenario{V6: b.V6, Noise: b.Noise}
+	host := genAddr(t, n, "rel-host")
+	switch rel {
+	case RelSameCIDR:
+		a.Addr = b.inside(host)
+		a.Prefix = b.Prefix
+	case RelSameBase:
+		a.Addr = append([]byte(nil), b.Addr...)
+		a.Prefix = rapid.IntRange(0, bits).Draw(t, "rel-prefix")
+		if a.Prefix == b.Prefix {
+			a.Prefix = (b.Prefix + 1) % (bits + 1)
+		}
+	case RelNested:
+		a.Addr = b.inside(host)
+		if b.Prefix == bits {
+			a.Prefix = bits // nothing narrower exists: degenerates to the same CIDR
+			rel = RelSameCIDR
+		} else {
+			a.Prefix = rapid.IntRange(b.Prefix+1, bits).Draw(t, "rel-prefix")
+		}
+	case RelSibling:
+		a.Addr = b.inside(host)
+		a.Prefix = b.Prefix
+		if b.Prefix == 0 {
+			rel = RelSameCIDR
+		} else {
+			flipBit(a.Addr, rapid.IntRange(0, b.Prefix-1).Draw(t, "rel-bit"))
+		}
+	default:
+		a.Addr = genAddr(t, n, "rel-addr")
+		a.Prefix = rapid.IntRange(0, bits).Draw(t, "rel-prefix")
+		// classify what came out
+		if a.Prefix == b.Prefix && InCIDR(a.Addr, b.Addr, b.Prefix) {
+			rel = RelSameCIDR
+		}
+	}
+	if isV4Mapped(a.Addr) {
+		a.Addr[0] = 0xfd
+		rel = RelIndependent
+		if a.Prefix == b.Prefix && InCIDR(a.Addr, b.Addr, b.Prefix) {
+			rel = RelSameCIDR
+		}
+	}
+	if b.V6 {
+		a.Form = rapid.IntRange(0, 1).Draw(t, "rel-form")
+	} else {
+		a.Form = rapid.IntRange(0, 3).Draw(t, "rel-form")
+	}
+	return a, rel
+}
+
+// SameCIDR reports whether a and b denote the same set of addresses.
+func SameCIDR(a, b Scenario) bool {
+	return a.V6 == b.V6 && a.Prefix == b.Prefix && InCIDR(a.Addr, b.Addr, b.Prefix)
+}
+
+// WithBoundaryProbes returns b with extra probes that tell b apart from the CIDR a: the
+// first and last address of a, and of b, each also with b's last network bit flipped.
+func WithBoundaryProbes(b, a Scenario) Scenario {
+	n := len(b.Addr)
+	zero, ones := make([]byte, n), make([]byte, n)
+	for i := range ones {
+		ones[i] = 0xff
+	}
+	out := b
+	out.Probes = append([]Probe(nil), b.Probes...)
+	add := func(addr []byte) {
+		out.Probes = append(out.Probes, Probe{Kind: KindFar, Bits: addr, OtherKind: 2, Other: make([]byte, n)})
+		if b.Prefix > 0 {
+			f := append([]byte(nil), addr...)
+			flipBit(f, b.Prefix-1)
+			out.Probes = append(out.Probes, Probe{Kind: KindFar, Bits: f, OtherKind: 2, Other: make([]byte, n)})
+		}
+	}
+	add(a.inside(zero))
+	add(a.inside(ones))
+	add(b.inside(zero))
+	add(b.inside(ones))
+	return out
+}
+
+// GenHost draws an address of n bytes related to base: equal, one bit flipped, sharing the
+// first 1..n/4-1 32-bit words (the rest arbitrary), or arbitrary.
+func GenHost(t *rapid.T, base []byte, label string) []byte {
+	n := len(base)
+	out := append([]byte(nil), base...)
+	switch rapid.IntRange(0, 5).Draw(t, label+"-rel") {
+	case 0:
+		// equal
+	case 1:
+		flipBit(out, rapid.IntRange(0, n*8-1).Draw(t, label+"-bit"))
+	case 2, 3:
+		words := n / 4
+		keep := 0
+		if words > 1 {
+			keep = rapid.IntRange(1, words-1).Draw(t, label+"-keep")
+		}
+		tail := genAddr(t, n, label+"-tail")
+		copy(out[keep*4:], tail[keep*4:])
+	case 4:
+		// differs only in the last word
+		tail := genAddr(t, n, label+"-tail")
+		copy(out[n-4:], tail[n-4:])
+	default:
+		out = genAddr(t, n, label+"-any")
+	}
+	if isV4Mapped(out) {
+		out[0] = 0xfd
+	}
+	return out
+}
+
+// GenBaseAddr draws an address of 4 / 16 bytes outside the IPv4-mapped block.
+func GenBaseAddr(t *rapid.T, v6 bool, label string) []byte {
+	n := 4
+	if v6 {
+		n = 16
+	}
+	a := genAddr(t, n, label)
+	if isV4Mapped(a) {
+		a[0] = 0xfd
+	}
+	return a
+}
+
+// IsV4Mapped reports whether b is a 16-byte address in ::ffff:0:0/96.
+func IsV4Mapped(b []byte) bool { return isV4Mapped(b) }
+
+// FlipBit returns a copy of b with bit i (0 = most significant) flipped.
+func FlipBit(b []byte, i int) []byte {
+	out := append([]byte(nil), b...)
+	flipBit(out, i)
+	return out
+}
